@@ -3,7 +3,7 @@ from checks import krill_common as kc
 
 PID = "C03"
 LEVEL = "model_checking"
-THEMES = "life,roll,multi,mix,foreign".split(",")
+THEMES = "life,roll,multi,mix,foreign,deep".split(",")
 NEEDED = "Settled".split(",")
 
 RULE = (
@@ -60,13 +60,20 @@ def run(tier, seed):
         PID, LEVEL, tier, seed, THEMES,
         quick_num=12 if len(THEMES) > 1 else 24, thorough_num=250,
         assumptions=kc.COMMON_ASSUMPTIONS, rule=RULE, needed_events=NEEDED,
-        mc_cfgs=(['MC_Krill_q_roll.cfg', 'MC_Krill_q_life.cfg'] if tier == "quick" else ['MC_Krill_q_roll.cfg', 'MC_Krill_q_life.cfg', 'MC_Krill_roll.cfg', 'MC_Krill_life.cfg']),
+        mc_cfgs=(['MC_Krill_q_roll.cfg', 'MC_Krill_q_life.cfg']
+                 if tier == "quick" else
+                 ['MC_Krill_q_roll.cfg', 'MC_Krill_q_life.cfg',
+                  'MC_Krill_roll.cfg', 'MC_Krill_life.cfg',
+                  'MC_Krill_q_deep.cfg']),
         directed=(DIRECTED + kc.MULTI_DIRECTED
                   + kc.clause("child-removed-suspended-deleted",
                               "roa-replaced", "shrink-to-nothing",
-                              "foreign-limit-shrink")
+                              "foreign-limit-shrink",
+                              "parent-removed-with-children",
+                              "parent-removed-deep-roll-suspended")
                   + kc.TA_DIRECTED[:1]),
-        theme_nums={"multi": (6, 80), "mix": (6, 60), "foreign": (4, 60)})
+        theme_nums={"multi": (6, 80), "mix": (6, 60), "foreign": (4, 60),
+                    "deep": (6, 80)})
 
 
 def replay(path, seed):
